@@ -317,6 +317,35 @@ def run_case(case, seed):
                     y2 = sle.mals(op, xg2, op @ xg2, repeats=1, solver=solver, threshold=1e-8, max_rank=np.inf)
                     if meta_problem(y2) is None and list(y2.row_dims) == list(dims):
                         r.close(key + ':graded-fixed-point', vec(y2), vec(xg2), 1e-6, 'bond weights %s; threshold 1e-8' % wts)
+    # an exact solution of LOW rank and a maximal-rank guess of the form (other term) + x*, written as block cores with the other
+    # term listed first: the leading vectors of the guess's interface frames are not needed for x*, so leading columns of the
+    # solved cores vanish -- one sweep must still return x*
+    mrk = max_ranks(dims)
+    if not binding and ismax and d >= 2 and case['op'] in ('dense', 'ttbuilt', 'diagfirst') and c in (False, True) and all(v >= 2 for v in mrk[1:-1]):
+        for eps_ in (1.0, 1e-3):
+            xt_c = rand_cores(rng, dims, [1] * d, [1] * (d + 1), c is True)
+            ex_c = rand_cores(rng, dims, [1] * d, [1] + [v - 1 for v in mrk[1:-1]] + [1], c is True)
+            gc = []
+            for i_ in range(d):
+                a_, b_ = eps_ * ex_c[i_] if i_ == 0 else ex_c[i_], xt_c[i_]
+                if i_ == 0:
+                    gc.append(np.concatenate([a_, b_], axis=3))
+                elif i_ == d - 1:
+                    gc.append(np.concatenate([a_, b_], axis=0))
+                else:
+                    blk = np.zeros((a_.shape[0] + 1, dims[i_], 1, a_.shape[3] + 1), dtype=a_.dtype)
+                    blk[:-1, :, :, :-1] = a_; blk[-1:, :, :, -1:] = b_
+                    gc.append(blk)
+            g3 = tt_from(gc); x3 = tt_from(xt_c)
+            b3 = op @ x3
+            with r.op(key + ':low-rank-solution:call'):
+                STATE['mon'] = None
+                for reps in (1, 2):
+                    y3 = sle.als(op, g3, b3, repeats=reps, solver=solver) if meth == 'als' else sle.mals(op, g3, b3, repeats=reps, solver=solver, threshold=thr, max_rank=mr)
+                    if meta_problem(y3) is None and list(y3.row_dims) == list(dims):
+                        r.close(key + ':low-rank-solution:exact-at-max-rank', vec(y3), vec(x3), 1e-8, 'guess = %g*(other term) + x*, repeats %d, ranks returned %s' % (eps_, reps, y3.ranks))
+                    else:
+                        r.fail(key + ':low-rank-solution:meta', str(meta_problem(y3)))
     # aliased inputs: the right-hand side object itself passed as initial guess == a distinct copy passed as initial guess
     if not binding and case['op'] != 'kronint' and case['rb'] <= min(max_ranks(dims)[1:-1] + [case['rb']]):
         with r.op(key + ':aliased-guess:call'):
